@@ -170,6 +170,11 @@ def bindParams (fr : Frame) (st : State) : List Nat → List Val → Frame × St
   | p :: ps, a :: as => let (fr', st') := writeVar fr st p a; bindParams fr' st' ps as
   | _, _ => (fr, st)
 
+/-- operands of a (nested) addition, left to right -/
+def addOps : Expr → List Expr
+  | .add a b => addOps a ++ addOps b
+  | e => [e]
+
 /-- outcome of evaluating an expression / running statements -/
 inductive Res (α : Type) where
   /-- an exception (uninitialized variable, not a number, not callable, wrong number of
@@ -189,17 +194,15 @@ def evalE : Nat → Frame → State → Expr → Res Val
     | some v => .ok v fr st
     | none => .err st
   | fuel + 1, fr, st, .add a b =>
-    match evalE fuel fr st a with
-    | .ok va fr1 st1 =>
-      match evalE fuel fr1 st1 b with
-      | .ok vb fr2 st2 =>
-        match va, vb with
-        | .int x, .int y => .ok (.int (x + y)) fr2 st2
-        | _, _ => .err st2
+    -- parenthesised nested additions are one left-to-right chain (the compiler flattens them):
+    -- `a + (b + c)` checks `a + b` before `c` is evaluated
+    match addOps (.add a b) with
+    | [] => .err st
+    | e1 :: rest =>
+      match evalE fuel fr st e1 with
+      | .ok v fr1 st1 => evalAdds fuel fr1 st1 v rest
       | .err s => .err s
       | .ret a v s => .ret a v s
-    | .err s => .err s
-    | .ret a v s => .ret a v s
   | fuel + 1, fr, st, .call f a =>
     match evalE fuel fr st a with
     | .ok arg fr1 st1 =>
@@ -234,6 +237,19 @@ def evalE : Nat → Frame → State → Expr → Res Val
     | .ret a v s => .ret a v s
   | _ + 1, fr, st, .block s => .ok (.clo s (fr.s :: fr.chain) fr.act) fr st
   | _ + 1, fr, st, .fn s => .ok (.fnv s) fr st
+
+/-- the remaining operands of an addition chain -/
+def evalAdds : Nat → Frame → State → Val → List Expr → Res Val
+  | 0, _, st, _, _ => .err st
+  | _ + 1, fr, st, acc, [] => .ok acc fr st
+  | fuel + 1, fr, st, acc, e :: rest =>
+    match evalE fuel fr st e with
+    | .ok v fr1 st1 =>
+      match acc, v with
+      | .int x, .int y => evalAdds fuel fr1 st1 (.int (x + y)) rest
+      | _, _ => .err st1
+    | .err s => .err s
+    | .ret a v s => .ret a v s
 
 /-- the statements of a scope body, in order -/
 def runBody : Nat → Frame → State → List Stmt → Res Unit
